@@ -7,6 +7,7 @@ import (
 	"reflect"
 	"strconv"
 	"sync"
+	"sync/atomic"
 
 	"github.com/gookit/rux"
 )
@@ -182,6 +183,7 @@ func lruConcRecord(s *Summary, rng *rand.Rand, n int, out *traceWriter) {
 			mu.Unlock()
 		})
 		var wg sync.WaitGroup
+		var setCalls int64
 		for w := 0; w < workers; w++ {
 			wg.Add(1)
 			r := rand.New(rand.NewSource(rng.Int63()))
@@ -191,6 +193,7 @@ func lruConcRecord(s *Summary, rng *rand.Rand, n int, out *traceWriter) {
 					k := "k" + strconv.Itoa(r.Intn(nkeys))
 					switch x := r.Intn(10); {
 					case x < 4:
+						atomic.AddInt64(&setCalls, 1)
 						cache.Set(k, valRoute(1))
 					case x < 8:
 						cache.Get(k)
@@ -204,6 +207,19 @@ func lruConcRecord(s *Summary, rng *rand.Rand, n int, out *traceWriter) {
 		}
 		wg.Wait()
 		rux.VerifSetCacheTracer(nil)
+		// every Set call is one step of the cache, however busy the lock was when it arrived
+		setEvents := int64(0)
+		for _, e := range evs {
+			if e.Op == "set" {
+				setEvents++
+			}
+		}
+		s.Compared++
+		if setEvents != setCalls {
+			s.mismatch(map[string]any{"kind": "lru-conc", "aspect": "lost-set", "what": fmt.Sprintf(
+				"%d goroutines made %d Set calls on one cache (capacity %d), %d of them took effect (the others left no step in the lock-ordered history)",
+				workers, setCalls, capN, setEvents)}, nil)
+		}
 		// order by Seq (assigned under the lock)
 		bySeq := make(map[uint64]rux.VerifCacheEvent, len(evs))
 		var lo, hi uint64
